@@ -120,6 +120,14 @@ def _gen_history(rng, nmods, nsteps, long_ids):
     for _ in range(rng.range(2, nsteps)):
         r = rng.below(100)
         small = [m for m in sorted(live) if m in texts and re.search(r'val [vw]: ', texts[m])]
+        same = [m for m in sorted(live) if m in texts]
+        if same and rng.chance(1, 6):
+            # the client sends a document again with exactly the text the server already has (save without change): nothing
+            # may be lost, in particular not the syntax errors of that text
+            k = rng.pick([1, 1, 2])
+            ms = rng.shuffle(same)[:k]
+            ops.append({'op': 'update', 'mods': [[m, texts[m]] for m in ms]})
+            continue
         if small and rng.chance(1, 5):
             # an edit that leaves every member signature as it is: the field is renamed, or made private / public
             m = rng.pick(small)
